@@ -16,22 +16,36 @@ RULE = ("paragraphs = ordered (name, value) lists, values = first line x all con
         "run through the same single-paragraph configurations (plain + comments at all boundaries, armor); long lines = "
         "one- and two-field paragraphs and two-paragraph documents in which the first line and/or a continuation line of "
         "one value is a physical line of exactly L characters (ASCII) / L bytes or L characters of 2-byte UTF-8 letters, "
-        "L around the buffer sizes a reader may use, through the same configurations")
+        "L around the buffer sizes a reader may use, through the same configurations; blank lines = documents of 1-3 "
+        "paragraphs with 0-2 empty or whitespace-only lines before the first paragraph and 1-3 such lines between "
+        "paragraphs (default parser setting: a whitespace-only line separates paragraphs like an empty one): one state "
+        "per document, transitions = traces = parser executions (6 input forms x {Deb822, iter_paragraphs, Dsc, Changes} "
+        "for one paragraph, 6 forms x iter_paragraphs otherwise), non-trivial when a leading or separating line is "
+        "whitespace-only or there is more than one of them")
 BUDGET = {"quick": 240, "thorough": 3000}
 
 
 def bounds(tier):
     return {"names": NAMES, "first_lines": len(firsts(0)), "continuation_shapes": len(conts(0)),
-            "continuation_lines": "0..2" if tier == "quick" else "0..3",
+            "continuation_lines": "0..2" if tier == "quick" else "0..%d" % DEEP_CONTS,
             "two_field_paragraphs": "every 7th x every 11th value (of the 584 with <= 2 continuation lines), two name pairs" if tier == "quick"
-            else "every 3rd x every 5th value (of the 584 with <= 2 continuation lines), two name pairs, every single comment placement",
-            "documents": "all pairs over a 20-paragraph pool and triples over 6, separators of 1 and 2 blank lines",
+            else "every value x every 3rd value (of the 584 with <= 2 continuation lines), two name pairs, every single comment placement",
+            "documents": "all pairs over a %d-paragraph pool and triples over %d, separators of 1 and 2 blank lines"
+                         % tuple(len(x) for x in pools(tier, 0)),
             "input_forms": ["str", "bytes", "lines with newlines", "lines without", "StringIO", "BytesIO"],
             "comment_placements": "none / each single line boundary / all boundaries",
             "sweep": "one character at a time: %d values 'x<c>y' + continuation line ' x<c>y' under field A (c = printable "
                      "ASCII U+0021..U+007E and %d non-ASCII letters) and %d field names 'X<c>Y' with value 'v' (c = "
                      "printable ASCII except ':'); forms x {plain, comments at all boundaries} and the armor variants"
                      % (len(sweep_value_chars()), len(SWEEP_NON_ASCII), len(sweep_name_chars())),
+            "blank_lines": {"line_shapes": BLANK_LINES,
+                            "leading": "all %d sequences of 0..2 such lines before the first paragraph" % len(blank_seqs(0, 2)),
+                            "separators": "all %d sequences of 1..3 such lines between two paragraphs" % len(blank_seqs(1, 3)),
+                            "documents": "every leading sequence x (each of %d paragraphs alone; all %d ordered pairs x every "
+                                         "separator); three paragraphs x every pair of separators, no leading line"
+                                         % (len(blank_pars(0)), len(blank_pars(0)) ** 2),
+                            "configurations": "one paragraph: 6 input forms x {Deb822, iter_paragraphs, Dsc, Changes}; "
+                                              "several: 6 input forms x iter_paragraphs; default parser settings"},
             "long_lines": {"physical_line_lengths": long_lengths(tier), "fills": [f for f, _m in LONG_FILLS],
                            "value_layouts": ([l for l, _m in LONG_LAYOUTS] if tier != "quick" else
                                              "shapes x %r for fills ascii and utf8-bytes at lengths < 16384 (utf8-chars: 2 "
@@ -54,6 +68,10 @@ def assumptions():
             "space and the characters str.splitlines cuts at (\\x0b \\x0c \\x1c-\\x1e \\x85 U+2028 U+2029) are not "
             "'printable/UTF-8 values' in the sense of the quantifier; swept field-name characters are the policy set "
             "U+0021..U+007E without ':' (the swept character is never first, so '#' and '-' are legal)",
+            "blank lines: with the default setting (strict whitespace-separates-paragraphs = True) a line of blanks and "
+            "tabs only is a paragraph separator exactly like an empty line (Policy 5.1, Debian bug 715558), and any number "
+            "of such lines before the first paragraph or between two paragraphs is skipped; the unchanged library reads "
+            "Deb822(' \\n\\t\\nA: b\\n') as {'A': 'b'} in every input form, and Dsc / Changes likewise",
             "long lines: the statement puts no bound on the length of a line; lengths are those of the physical line "
             "'Name: first line' resp. ' continuation' without its newline (8190..8193 bracket a cut after 8192 units "
             "whether or not the newline is counted); 'bytes' fills make the UTF-8 encoded line exactly L bytes long "
@@ -206,6 +224,17 @@ def values(tier, seed, fi):
     return out
 
 
+DEEP_CONTS = 5        # thorough: continuation-line lists up to this length (values() stops at 3, deep_values() adds 4..)
+
+
+def deep_values(seed, fi, k, prefix):
+    """the values with first line fi and exactly k continuation lines of which the first len(prefix) are given"""
+    f = firsts(seed)[fi]
+    cs = conts(seed)
+    head = tuple(cs[i] for i in prefix)
+    return ["\n".join((f,) + head + tail) for tail in itertools.product(cs, repeat=k - len(head))]
+
+
 def all_values(tier, seed):
     out = []
     for fi in range(len(firsts(seed))):
@@ -317,6 +346,57 @@ def check_single(par, full, armors=None):
     return bad, n
 
 
+# ------------------------------------------------------------------------------------------------ blank lines
+BLANK_LINES = ["", " ", "\t"]          # an empty line and two whitespace-only lines (without their newline)
+
+
+def blank_seqs(lo, hi):
+    """all sequences of lo..hi lines over BLANK_LINES, shortest first"""
+    return [list(t) for n in range(lo, hi + 1) for t in itertools.product(BLANK_LINES, repeat=n)]
+
+
+def blank_pars(seed):
+    v, c = firsts(seed)[1], conts(seed)[0]
+    return [[("A", v)], [("A", v + "\n" + c)], [("x1", "a b"), ("Long-Name", v + "\n .\n" + c)]]
+
+
+def check_blank(lead, pars, seps):
+    """lead: list of blank lines before the first paragraph; seps: one list of blank lines per paragraph boundary
+    -> (violations, n executions)"""
+    from debian.deb822 import Deb822, Dsc, Changes
+    texts = [build(p) for p in pars]
+    if any(t is None for t in texts):
+        return [("deb822/valid-value-rejected", "accepted", "ValueError")], 0
+    t = "".join(l + "\n" for l in lead) + texts[0]
+    for sep, tx in zip(seps, texts[1:]):
+        t += "".join(l + "\n" for l in sep) + tx
+    want = [[(k, v) for k, v in p] for p in pars]
+    bad = []
+    n = 0
+    for fn, mk in forms(t):
+        n += 1
+        try:
+            gp = [list(p.items()) for p in Deb822.iter_paragraphs(mk())]
+        except Exception as e:
+            bad.append(("deb822/blank-lines/iter/raises/%s" % fn, want, "%s: %s on %r" % (type(e).__name__, e, t)))
+            gp = want
+        if gp != want:
+            bad.append(("deb822/blank-lines/iter/%s" % fn, want, "%r from %r" % (gp, t)))
+        if len(pars) > 1:
+            continue
+        for cls in (Deb822, Dsc, Changes):
+            n += 1
+            try:
+                got = list(cls(mk()).items())
+            except Exception as e:
+                bad.append(("deb822/blank-lines/%s/raises/%s" % (cls.__name__, fn), want[0],
+                            "%s: %s on %r" % (type(e).__name__, e, t)))
+                continue
+            if got != want[0]:
+                bad.append(("deb822/blank-lines/%s/%s" % (cls.__name__, fn), want[0], "%r from %r" % (got, t)))
+    return bad, n
+
+
 def check_multi(pars, sep):
     from debian.deb822 import Deb822
     texts = [build(p) for p in pars]
@@ -342,41 +422,78 @@ def check_multi(pars, sep):
 def two_field_pars(tier, seed):
     # both tiers draw from the values with <= 2 continuation lines (584); thorough takes a denser grid and, in
     # run_unit, every single comment placement
+    return two_field_slice(tier, seed, 0, None)
+
+
+def _grid(tier):
+    return (7, 11) if tier == "quick" else (1, 3)
+
+
+def two_field_count(tier, seed):
     vals = all_values("quick", seed)
-    a, b = (7, 11) if tier == "quick" else (3, 5)
+    a, b = _grid(tier)
+    return len(vals[::a]) * len(vals[::b]) * 2
+
+
+def two_field_slice(tier, seed, lo, hi):
+    """two_field_pars(tier, seed)[lo:hi] without building the whole list"""
+    vals = all_values("quick", seed)
+    a, b = _grid(tier)
+    vs, ws = vals[::a], vals[::b]
+    n = len(vs) * len(ws) * 2
     out = []
-    for v in vals[::a]:
-        for w in vals[::b]:
-            out.append([("A", v), ("Long-Name", w)])
-            out.append([("x1", w), ("a9", v)])
+    for k in range(lo, n if hi is None else min(hi, n)):
+        v, w = vs[k // 2 // len(ws)], ws[k // 2 % len(ws)]
+        out.append([("x1", w), ("a9", v)] if k % 2 else [("A", v), ("Long-Name", w)])
     return out
 
 
-def pool(seed):
+def pools(tier, seed):
+    """-> (paragraphs for the two-paragraph documents, paragraphs for the three-paragraph documents); the thorough
+    pools contain the quick ones"""
     vals = all_values("quick", seed)
     singles = [[("A", v)] for v in vals]
     twos = two_field_pars("quick", seed)
     allp = singles + twos
-    return allp[::37][:20]
+    pl = allp[::37]
+    if tier == "quick":
+        return pl[:20], pl[:6]
+    return pl, pl[:6] + pl[6::6]
+
+
+def pool(seed):
+    return pools("quick", seed)[0]
 
 
 def units(tier, seed):
     out = [{"kind": "single1", "first": fi} for fi in range(len(firsts(seed)))]
-    n2 = len(two_field_pars(tier, seed))
+    if tier != "quick":
+        nc = len(conts(seed))
+        for k in range(4, DEEP_CONTS + 1):
+            # 512 values per unit: the first k - 3 continuation lines are fixed
+            out += [{"kind": "single1-deep", "first": fi, "conts": k, "prefix": list(pre)}
+                    for fi in range(len(firsts(seed))) for pre in itertools.product(range(nc), repeat=k - 3)]
+    n2 = two_field_count(tier, seed)
     step = 400
     out += [{"kind": "single2", "lo": i, "hi": min(n2, i + step)} for i in range(0, n2, step)]
     ns = len(sweep_pars())
     out += [{"kind": "sweep", "lo": i, "hi": min(ns, i + SWEEP_CHUNK)} for i in range(0, ns, SWEEP_CHUNK)]
     out += [{"kind": "long", "L": L} for L in long_lengths(tier)]
-    out += [{"kind": "multi2", "a": i} for i in range(20)]
-    out += [{"kind": "multi3", "a": i} for i in range(6)]
+    out += [{"kind": "blank", "lead": lead} for lead in blank_seqs(0, 2)]
+    p2, p3 = pools(tier, seed)
+    out += [{"kind": "multi2", "a": i} for i in range(len(p2))]
+    out += [{"kind": "multi3", "a": i} for i in range(len(p3))]
     return out
 
 
 def unit_cost(u, tier):
     if u["kind"] == "long":
         return 4 + u["L"] // 4096
-    return {"single1": 30, "single2": 10, "sweep": 1, "multi2": 2, "multi3": 3}[u["kind"]]
+    if tier != "quick" and u["kind"] == "multi3":
+        return 14
+    if u["kind"] == "blank":
+        return 2
+    return {"single1": 30, "single1-deep": 14, "single2": 10, "sweep": 1, "multi2": 2, "multi3": 3}[u["kind"]]
 
 
 def run_unit(u, tier, seed):
@@ -402,8 +519,13 @@ def run_unit(u, tier, seed):
         for v in vals:
             do_single([("A", v)], True)
         part.sample({"kind": "single", "par": [("A", vals[len(vals) // 2])], "full": True})
+    elif u["kind"] == "single1-deep":
+        vals = deep_values(seed, u["first"], u["conts"], u["prefix"])
+        for v in vals:
+            do_single([("A", v)], True)
+        part.sample({"kind": "single", "par": [("A", vals[len(vals) // 2])], "full": True})
     elif u["kind"] == "single2":
-        pars = two_field_pars(tier, seed)[u["lo"]:u["hi"]]
+        pars = two_field_slice(tier, seed, u["lo"], u["hi"])
         for par in pars:
             do_single(par, tier == "thorough")
         part.sample({"kind": "single", "par": pars[0], "full": False})
@@ -412,6 +534,29 @@ def run_unit(u, tier, seed):
         for par in pars:
             do_single(par, False)
         part.sample({"kind": "single", "par": pars[0], "full": False})
+    elif u["kind"] == "blank":
+        lead = u["lead"]
+        bp = blank_pars(seed)
+        seps = blank_seqs(1, 3)
+        docs = [([p], []) for p in bp]
+        docs += [([p, q], [sep]) for p in bp for q in bp for sep in seps]
+        if not lead:
+            docs += [(list(bp), [s1, s2]) for s1 in seps for s2 in seps]
+        for pars, ss in docs:
+            bad, n = check_blank(lead, pars, ss)
+            part.states += 1
+            part.transitions += n
+            part.traces += n
+            part.evaluations += n
+            if len(lead) > 1 or any(len(x) > 1 for x in ss) or any(l for x in [lead] + ss for l in x):
+                part.nontrivial += 1
+            case = {"kind": "blank", "lead": lead, "pars": pars, "seps": ss}
+            for sig, exp, obs in bad:
+                part.violation(sig, case, exp, obs, rank=len(lead) + len(pars) + sum(len(x) for x in ss))
+            if not bad:
+                part.outcomes["blank-lines/%d-paragraphs/%d-leading/separators<=%d" % (
+                    len(pars), len(lead), max([len(x) for x in ss] or [0]))] += 1
+        part.sample({"kind": "blank", "lead": lead, "pars": docs[len(docs) // 2][0], "seps": docs[len(docs) // 2][1]})
     elif u["kind"] == "long":
         one = tier == "quick"
         cases = [{"kind": "long", "spec": spec, "seed": seed, "one_armor": one} for spec in long_specs(u["L"], tier)]
@@ -431,8 +576,9 @@ def run_unit(u, tier, seed):
                                                  else "%d-fields" % (1 if spec["shape"] == 0 else 2))] += 1
         part.sample({"kind": "long", "spec": long_specs(u["L"], tier)[0], "seed": seed, "one_armor": one})
     else:
-        pl = pool(seed)
-        rest = [pl] if u["kind"] == "multi2" else [pl[:6], pl[:6]]
+        p2, p3 = pools(tier, seed)
+        pl = p2 if u["kind"] == "multi2" else p3
+        rest = [pl] if u["kind"] == "multi2" else [pl, pl]
         first = pl[u["a"]]
         for tail in itertools.product(*rest):
             pars = [first] + list(tail)
@@ -457,4 +603,6 @@ def replay(case):
         return run_long(case)[0]
     if case["kind"] == "single":
         return check_single([tuple(x) for x in case["par"]], case["full"])[0]
+    if case["kind"] == "blank":
+        return check_blank(case["lead"], [[tuple(x) for x in p] for p in case["pars"]], case["seps"])[0]
     return check_multi([[tuple(x) for x in p] for p in case["pars"]], case["sep"])[0]
